@@ -30,7 +30,7 @@ ENTRY = dict(
             "all 2^8 subsets x attempt of each answer": "theorem (histories universally quantified) + exhaustive correspondence (65536 patterns, thorough tier)",
         },
         assumptions=COMMON_ASSUME + [
-            "responses are well formed and non-degenerate (an empty regulator-data schema provides no `regdata_schema` name and counts as unanswered)",
+            "responses are well formed; minimal answers (empty alert log, no parameters, no schedules, empty password, no mixers, no thermostats) are exercised as answer variants; an EMPTY regulator-data schema provides no `regdata_schema` name and counts as unanswered",
             "kinds whose handler awaits product information: ecoMAX parameters always, mixer parameters when the response lists at least one mixer",
             "a response and a timeout never carry the same virtual timestamp",
         ],
